@@ -29,7 +29,7 @@ OperandOK(h) == IsRaw(h) /\ ProjValid(Proj(h))
 
 Classes == {"add_inf_inf", "add_inf_p", "add_p_inf", "add_p_p", "add_p_negp", "add_generic", "add_inf_altrep",
             "z_not_one", "alias_recv", "alias_all", "mixed_p_p", "mixed_p_negp", "mixed_inf", "dbl_inf", "dbl_order2free",
-            "equal_true_diffrep", "equal_neg", "equal_inf_inf", "equal_p_inf", "yodd", "yeven", "enc_inf", "chain_step",
+            "equal_true_diffrep", "equal_neg", "equal_same_y", "equal_inf_inf", "equal_p_inf", "yodd", "yeven", "enc_inf", "chain_step",
             "split_extreme", "split_neg1", "split_neg2", "split_round_flip", "split_limb_carry", "split_edge",
             "mul_zero", "mul_inf", "mul_alias", "mul_edge_scalar", "mul_altrep", "glv_bound",
             "tbl_huge", "tbl_odd", "tbl_row", "bm_single_byte", "bm_zero_nibble", "bm_edge", "bm_priv",
@@ -65,7 +65,8 @@ ResultOK(ev, want) ==
 
 (* ---- verdict: <<ok, classes, tblBase', tblAcc', chain'>> is split: pure part here ---- *)
 Verdict(ev) ==
-  CASE ev.ev \in {"pt.Add", "pt.AddC", "pt.Sub"} ->
+  CASE ev.ev = "lib.Unexpected" -> << FALSE, {} >>                 \* a call that must succeed failed or panicked
+    [] ev.ev \in {"pt.Add", "pt.AddC", "pt.Sub"} ->
          LET a == AffOf(ev.p)  b == AffOf(ev.q)
              want == IF ev.ev = "pt.Sub" THEN PSub(a, b) ELSE PAdd(a, b) IN
          << OperandOK(ev.p) /\ OperandOK(ev.q) /\ ResultOK(ev, want)
@@ -96,6 +97,7 @@ Verdict(ev) ==
          << OperandOK(ev.p) /\ OperandOK(ev.q) /\ ev.out = FlagOf(PEq(a, b)),
             (IF PEq(a, b) /\ ev.p # ev.q /\ ~IsInf(a) THEN {"equal_true_diffrep"} ELSE {})
             \cup (IF ~IsInf(a) /\ ~PEq(a, b) /\ PEq(a, PNeg(b)) THEN {"equal_neg"} ELSE {})
+            \cup (IF ~IsInf(a) /\ ~IsInf(b) /\ ~PEq(a, b) /\ BigEq(a[2], b[2]) THEN {"equal_same_y"} ELSE {})
             \cup (IF IsInf(a) /\ IsInf(b) THEN {"equal_inf_inf"} ELSE {})
             \cup (IF IsInf(a) # IsInf(b) THEN {"equal_p_inf"} ELSE {}) >>
     [] ev.ev = "pt.IsId" -> << OperandOK(ev.p) /\ ev.out = FlagOf(IsInf(AffOf(ev.p))), {} >>
